@@ -10,7 +10,9 @@ use crate::verif::props::gen_out::*;
 use crate::verif::refcodec::app::{self as refapp};
 use crate::verif::rng::{mix, Rng};
 use crate::verif::runner::{erase, Codec, Outcome, Property, Scenario, Tier, Violation};
-use crate::verif::sout::{self, ConfSel, Dest, Op, Oracle, SoutCase, Step, TimeBase, Who, World, TL};
+use crate::verif::sout::{
+    self, ConfSel, Dest, Op, Oracle, SoutCase, Step, TimeBase, Who, World, TL,
+};
 use std::collections::BTreeMap;
 
 pub struct UnsolScenario;
@@ -77,7 +79,11 @@ impl Scenario for UnsolScenario {
         let mut clock = 5_000_000u64;
         let mut script = Vec::new();
         if rng.chance(5, 6) {
-            script.push(Op::Confirm { uns: true, seq: ConfSel::Expected, from: Who::Master });
+            script.push(Op::Confirm {
+                uns: true,
+                seq: ConfSel::Expected,
+                from: Who::Master,
+            });
         }
         if rng.chance(4, 5) {
             script.push(unsol_op(rng, true));
@@ -88,19 +94,35 @@ impl Scenario for UnsolScenario {
                 0..=24 => {
                     let u = gen_update(rng, &cfg.points, &mut clock);
                     if rng.chance(1, 3) {
-                        script.push(Op::UpdateAtLock { site: rng.pick(&LOCK_SITES).to_string(), skip: rng.below(3) as u8, update: u });
+                        script.push(Op::UpdateAtLock {
+                            site: rng.pick(&LOCK_SITES).to_string(),
+                            skip: rng.below(3) as u8,
+                            update: u,
+                        });
                     } else {
                         script.push(Op::Update(u));
                     }
                 }
                 25..=39 => script.push(Op::Confirm {
                     uns: true,
-                    seq: if rng.chance(3, 4) { ConfSel::Expected } else { ConfSel::Offset(rng.range(1, 15) as u8) },
+                    seq: if rng.chance(3, 4) {
+                        ConfSel::Expected
+                    } else {
+                        ConfSel::Offset(rng.range(1, 15) as u8)
+                    },
                     from: Who::Master,
                 }),
-                40..=44 => script.push(Op::Confirm { uns: false, seq: ConfSel::Expected, from: Who::Master }),
+                40..=44 => script.push(Op::Confirm {
+                    uns: false,
+                    seq: ConfSel::Expected,
+                    from: Who::Master,
+                }),
                 45..=59 => script.push(Op::SleepRel {
-                    base: if rng.chance(2, 3) { TimeBase::ConfirmTimeout } else { TimeBase::RetryDelay },
+                    base: if rng.chance(2, 3) {
+                        TimeBase::ConfirmTimeout
+                    } else {
+                        TimeBase::RetryDelay
+                    },
                     delta_ms: *rng.pick(&[-1i64, 1, 1]),
                     since_last_tx: rng.chance(2, 3),
                 }),
@@ -269,7 +291,11 @@ impl Oracle for UnsolOracle {
             self.connected = true;
         }
 
-        let sent = if step.link_up { step.sent.clone() } else { None };
+        let sent = if step.link_up {
+            step.sent.clone()
+        } else {
+            None
+        };
         let mut evs: Vec<(u64, Ev)> = Vec::new();
         for tl in &step.timeline {
             let o = match tl {
@@ -279,7 +305,10 @@ impl Oracle for UnsolOracle {
             evs.push((o, Ev::Tl(tl)));
         }
         for (i, (t, cb)) in step.callbacks.iter().enumerate() {
-            evs.push((step.callback_orders.get(i).copied().unwrap_or(0), Ev::Cb(*t, cb)));
+            evs.push((
+                step.callback_orders.get(i).copied().unwrap_or(0),
+                Ev::Cb(*t, cb),
+            ));
         }
         for rx in &step.received {
             evs.push((rx.order, Ev::Frag(rx)));
@@ -314,7 +343,9 @@ impl Oracle for UnsolOracle {
                     Cb::Info(s) => {
                         if s.starts_with("enter_solicited_confirm_wait") {
                             self.sol_wait = true;
-                        } else if s.starts_with("solicited_confirm_timeout") || s.starts_with("solicited_confirm_wait_new_request") {
+                        } else if s.starts_with("solicited_confirm_timeout")
+                            || s.starts_with("solicited_confirm_wait_new_request")
+                        {
                             self.sol_wait = false;
                         } else if s.starts_with("solicited_confirm_received") {
                             // the wait continues only if another fragment follows (enter is not called again); decided below
@@ -331,7 +362,10 @@ impl Oracle for UnsolOracle {
                             }
                         }
                         if s.starts_with("unsolicited_confirmed") {
-                            let q = s.split_whitespace().nth(1).and_then(|x| x.parse::<u8>().ok());
+                            let q = s
+                                .split_whitespace()
+                                .nth(1)
+                                .and_then(|x| x.parse::<u8>().ok());
                             if let (Some(series), Some(q)) = (self.outstanding.clone(), q) {
                                 if series.seq == q {
                                     if confirm_sent != Some(q) {
@@ -407,12 +441,18 @@ impl Oracle for UnsolOracle {
                     if func == refapp::FUNC_CONFIRM {
                         // only the flags FIR|FIN matter for a confirm; UNS selects the kind. The series ends when the session
                         // announces the confirmation (below), which is only legitimate if such a CONFIRM was sent
-                        if s.bytes[0] & 0xE0 == 0xC0 && s.bytes[0] & 0x10 != 0 && s.bytes.len() == 2 && unicast {
+                        if s.bytes[0] & 0xE0 == 0xC0
+                            && s.bytes[0] & 0x10 != 0
+                            && s.bytes.len() == 2
+                            && unicast
+                        {
                             confirm_sent = Some(s.bytes[0] & 0x0F);
                         }
                         continue;
                     }
-                    let retransmission = matches!(step.op, Op::Repeat) && self.last_request.as_ref() == Some(&s.bytes) && func != refapp::FUNC_READ;
+                    let retransmission = matches!(step.op, Op::Repeat)
+                        && self.last_request.as_ref() == Some(&s.bytes)
+                        && func != refapp::FUNC_READ;
                     self.last_request = Some(s.bytes.clone());
                     if retransmission {
                         // answered from memory, not executed again (C05); it still supersedes a deferred READ
@@ -452,7 +492,10 @@ impl Oracle for UnsolOracle {
                             if unicast || self.broadcast_enabled {
                                 match Self::classes_of(&s.bytes) {
                                     // takes effect when the request is processed (its response / the broadcast callback)
-                                    Some(cl) => self.pending_cfg = Some((func, cl, s.bytes[0] & 0x0F, unicast)),
+                                    Some(cl) => {
+                                        self.pending_cfg =
+                                            Some((func, cl, s.bytes[0] & 0x0F, unicast))
+                                    }
                                     None => {
                                         // other object headers: which classes changed is not modelled
                                         self.desync = true;
@@ -662,7 +705,12 @@ impl Oracle for UnsolOracle {
         // a series whose last transmission timed out during this step without a successor
         if let Some(series) = self.outstanding.clone() {
             let deadline = series.last_tx + self.confirm_timeout;
-            let may_retry = !series.is_null && self.deferred.is_none() && self.max_retries.map(|m| (series.tx_count as usize) < 1 + m).unwrap_or(true);
+            let may_retry = !series.is_null
+                && self.deferred.is_none()
+                && self
+                    .max_retries
+                    .map(|m| (series.tx_count as usize) < 1 + m)
+                    .unwrap_or(true);
             if now > deadline {
                 if may_retry || series.is_null {
                     // R8-like liveness: a retry (or a fresh start-up response) was due at `deadline`
@@ -696,7 +744,12 @@ impl Oracle for UnsolOracle {
             }
         }
         // R8: with a class enabled, an event buffered, nothing outstanding and no retry delay pending, a series must have started
-        if self.connected && self.null_done && self.outstanding.is_none() && !self.sol_wait && self.deferred.is_none() {
+        if self.connected
+            && self.null_done
+            && self.outstanding.is_none()
+            && !self.sol_wait
+            && self.deferred.is_none()
+        {
             let waiting = self.not_before.map(|nb| now < nb).unwrap_or(false);
             let edge = self.not_before.map(|nb| now == nb).unwrap_or(false);
             if !waiting && !edge {
@@ -726,7 +779,13 @@ impl Oracle for UnsolOracle {
             Op::Connect | Op::Disconnect { .. } => 52,
             _ => 60,
         };
-        self.fp = mix(&[self.fp, kind, kind_trace, self.outstanding.is_some() as u64, self.null_done as u64]);
+        self.fp = mix(&[
+            self.fp,
+            kind,
+            kind_trace,
+            self.outstanding.is_some() as u64,
+            self.null_done as u64,
+        ]);
         None
     }
 
